@@ -4,7 +4,10 @@
 # processes at 1, 5 and 16 workers, twice each; all digests per (property, seed)
 # must agree. Also diffs the full event log of a few plans between two processes.
 # usage: tools/determinism.sh [N] [seeds...]
-bin=/verif/sim/target/release/palsim
+here="$(cd "$(dirname "${BASH_SOURCE[0]}")/.." && pwd)"
+export CARGO_NET_OFFLINE=true VERIF_DIR="$here"
+(cd "$here/sim" && cargo build --release --offline >/dev/null 2>&1) || { echo "determinism: build failed"; exit 2; }
+bin="$here/sim/target/release/palsim"
 n="${1:-20000}"; shift
 seeds=("$@"); [ ${#seeds[@]} -eq 0 ] && seeds=(1 2 3 7 42 1234 20260926 4294967296 18446744073709551615 99991)
 bad=0; total=0
